@@ -275,6 +275,10 @@ class Ctx:
         self.known.append(key)
 
     def finish(self, level="proof"):
+        if not self.coverage.get("discharged"):
+            # a broken build: the proof-level keys would not validate; the exploration-style counts remain
+            self.coverage["broken_obligations"] = self.coverage.pop("obligations", None)
+            self.coverage.pop("discharged", None)
         ev = dict(
             property_id=self.id,
             tier=self.tier,
